@@ -132,6 +132,7 @@ class Driver(object):
     def __init__(self, refs=None):
         fresh_process_state()
         self.refs = refs or {}
+        self.quiet = False  # True: style operations are not followed by renders
         self.styles = []
         self.own = []  # per style: its own operations (with s = 1), the key of its fresh-process reference
         self.instances = {}
@@ -304,7 +305,7 @@ class Driver(object):
             ev["ref"] = self.intern("R" + self.refs.get(ref_key(op["comp"], op["io"]), text))
         if k in ("custom", "align") and not ev["exc"]:
             self.own[op["s"] - 1].append(dict(op, s=1))
-        if k in ("make", "custom", "align") and not ev["exc"]:
+        if k in ("make", "custom", "align") and not ev["exc"] and not self.quiet:
             ev["ids"] = [self.intern("T" + self.table_text(st)) for st in self.styles]
             ev["fields"] = [self.fields(st) for st in self.styles]
             # what a fresh process shows for a style with this own history alone (0: no reference taken)
@@ -340,12 +341,16 @@ def own_histories(ops):
 
 
 def wants_reference(history):
-    """references are taken for styles that carry a tagged Style (an own history is rendered alone in a forked child)"""
-    return any(o["op"] == "custom" and o["field"] in STYLED and ":" in o["value"] for o in history)
+    """references are taken for styles that carry a tagged Style or whose default alignment was changed - state that an
+    earlier render with the same style object may have frozen (an own history is rendered alone in a forked child)"""
+    return any((o["op"] == "custom" and o["field"] in STYLED and ":" in o["value"])
+               or (o["op"] == "align" and o["field"] == "default_column_alignment") for o in history)
 
 
 def style_text(history):
+    """the style is built by its own history and then used for its FIRST render"""
     d = Driver()
+    d.quiet = True
     for op in history:
         d.step(op)
     return d.table_text(d.styles[0])
